@@ -528,10 +528,11 @@ class Gen:
                     tname = "tm%d_%d" % (places.index(place), len(temps))
                     pre.append(["temp", tname, self.int_expr(sc, 1)])
                     sc = dict(sc, ints=sc["ints"] + [tname])
+                if pi == 0 and k["stitches"] and r.random() < 0.3:
+                    k["body"] = []        # knot without own content: flow starts in its first stitch
+                    continue
                 body = pre + self.weave(sc, None)
                 if pi == 0:
-                    if k["stitches"] and r.random() < 0.3 and len(kplaces) > 1:
-                        body = []         # knot without own content: flow starts in its first stitch
                     k["body"] = body
                 else:
                     k["stitches"][pi - 1]["body"] = body
